@@ -12,7 +12,8 @@ import argparse, hashlib, json, os, re, shutil, subprocess, sys, tempfile, time,
 
 ROOT = os.path.dirname(os.path.dirname(os.path.abspath(__file__)))
 REPO = os.environ.get("VERIF_REPO", "/repo")
-CACHE = os.path.join(ROOT, ".cache")
+CACHE = os.environ.get("VERIF_CACHE", os.path.join(ROOT, ".cache"))
+OUTROOT = os.environ.get("VERIF_OUTROOT", ROOT)   # evidence/ and replays/ go here (development runs against patched copies set it)
 SPEC = os.path.join(ROOT, "spec")
 sys.path.insert(0, os.path.join(ROOT, "bin"))
 import props as P  # noqa: E402
@@ -28,7 +29,8 @@ def log(*a):
 def src_hash():
     h = hashlib.sha256()
     roots = [os.path.join(REPO, d) for d in ("x", "app", "testutil")] + [os.path.join(ROOT, "harness")]
-    files = [os.path.join(REPO, "go.mod")]
+    files = [os.path.join(REPO, "go.mod")] + sorted(glob.glob(os.path.join(SPEC, "MC_*Gen.tla")) + glob.glob(os.path.join(SPEC, "cfg", "MC_*Gen*.cfg"))
+                                                    + [os.path.join(SPEC, "MC_Keys.tla"), os.path.join(SPEC, "MC_Lifecycle.tla")])
     for r in roots:
         for dp, dn, fn in os.walk(r):
             for f in fn:
@@ -53,6 +55,14 @@ def build_harness(sh):
     for d in sorted(glob.glob(os.path.join(CACHE, "bin", "*")), key=os.path.getmtime)[:-3]:
         shutil.rmtree(d, ignore_errors=True)
     hd = os.path.join(ROOT, "harness")
+    if os.path.realpath(REPO) != "/repo":
+        # a patched copy of the repository (development aid): build a copy of the harness whose go.mod points at it
+        hd2 = os.path.join(CACHE, "harness_src", sh)
+        shutil.rmtree(hd2, ignore_errors=True)
+        shutil.copytree(hd, hd2, ignore=shutil.ignore_patterns("*.test"))
+        gm = open(os.path.join(hd2, "go.mod")).read().replace("=> /repo", "=> " + os.path.realpath(REPO))
+        open(os.path.join(hd2, "go.mod"), "w").write(gm)
+        hd = hd2
     shutil.copy(os.path.join(REPO, "go.sum"), os.path.join(hd, "go.sum"))
     t0 = time.time()
     r = subprocess.run(["go", "test", "-c", "-tags", "verif", "-o", out, "."], cwd=hd, env=GOENV,
@@ -101,6 +111,41 @@ def gen_corpus(binpath, sh, corpus, seed0, n, steps, extra_env=None):
         raise SystemExit(2)
     open(done, "w").write("ok")
     log(f"[gen] corpus {corpus} seeds {seed0}..{seed0+n-1}: {len(glob.glob(d+'/*.ndjson'))} traces in {time.time()-t0:.0f}s")
+    return d
+
+
+def gen_schedules(sh, cp, seed, n):
+    """TLC -simulate writes one behaviour of the generator spec per file (sched_<i>.ndjson); cached per source hash."""
+    m = cp["mbt"]
+    d = os.path.join(CACHE, "mbt", sh, f"{cp['name']}_{seed}_{n}")
+    done = os.path.join(d, ".done")
+    if os.path.exists(done):
+        return d
+    shutil.rmtree(d, ignore_errors=True)
+    os.makedirs(d)
+    for od in glob.glob(os.path.join(CACHE, "mbt", "*")):
+        if os.path.basename(od) != sh:
+            shutil.rmtree(od, ignore_errors=True)
+    cfg_text = open(os.path.join(SPEC, "cfg", m["cfg"])).read()
+    t0 = time.time()
+    rc, out, wall = run_tlc(m["module"], cfg_text, env={"MBT_OUT": d}, workers=1, timeout=m.get("timeout", 1800),
+                            extra=["-simulate", f"num={n + 4}", "-depth", str(m["depth"]), "-seed", str(m.get("seed", 7) + seed)])
+    if "Error:" in out or rc not in (0,):
+        log(out[-3000:])
+        print(f"ERROR: schedule generation {m['module']} failed (rc={rc})")
+        raise SystemExit(2)
+    # TLC numbers the files by its trace counter (which may start at 0 or 1 and skip walks that ended early): renumber 0..
+    fs = sorted(glob.glob(os.path.join(d, "sched_*.ndjson")), key=lambda f: int(re.search(r"sched_(\d+)", f).group(1)))
+    for i, f in enumerate(fs):
+        os.rename(f, os.path.join(d, f"tmp_{i}"))
+    for i in range(len(fs)):
+        os.rename(os.path.join(d, f"tmp_{i}"), os.path.join(d, f"sched_{i}.ndjson"))
+    have = len(fs)
+    if have < n:
+        print(f"ERROR: schedule generation produced {have} < {n} behaviours")
+        raise SystemExit(2)
+    open(done, "w").write("ok")
+    log(f"[mbt] {m['module']}: {have} behaviours in {wall:.0f}s")
     return d
 
 
@@ -218,9 +263,29 @@ def load_known():
 
 
 def write_evidence(pid, ev):
-    os.makedirs(os.path.join(ROOT, "evidence"), exist_ok=True)
-    with open(os.path.join(ROOT, "evidence", f"{pid}.json"), "w") as f:
+    os.makedirs(os.path.join(OUTROOT, "evidence"), exist_ok=True)
+    with open(os.path.join(OUTROOT, "evidence", f"{pid}.json"), "w") as f:
         json.dump(ev, f, indent=1)
+
+
+def resolve_delta(prev, s):
+    """Provider snapshots are written as deltas (harness/world.go providerDelta); same rule as Trace.tla ProvState."""
+    cur = dict(prev)
+    cur.update(s.get("d", {}))
+    cons = dict(prev.get("cons", {}))
+    cons.update(s["dc"])
+    cur["cons"] = cons
+    if "dg" in s:
+        dig = dict(prev.get("dig", {}))
+        for k, v in s["dg"].items():
+            if k in ("cons", "prefixes"):
+                m = {x: y for x, y in prev.get("dig", {}).get(k, {}).items() if x not in s["dgr"].get(k, [])}
+                m.update(v)
+                dig[k] = m
+            else:
+                dig[k] = v
+        cur["dig"] = dig
+    return cur
 
 
 def trace_stats(files, classify):
@@ -237,6 +302,8 @@ def trace_stats(files, classify):
                 ch = e["chain"]
                 if "same" in e["s"]:
                     e["s"] = last.get(ch, {})
+                elif "dc" in e["s"]:
+                    e["s"] = last[ch] = resolve_delta(last.get(ch, {}), e["s"])
                 else:
                     last[ch] = e["s"]
                 for cl in classify(e):
@@ -248,18 +315,34 @@ def trace_stats(files, classify):
     return nev, classes, samples
 
 
-def save_replay(pid, v, corpus, tier):
+def save_replay(pid, v, corpus, tier, vseed=0):
     ts = time.strftime("%Y%m%d_%H%M%S")
-    d = os.path.join(ROOT, "replays", pid, ts)
+    d = os.path.join(OUTROOT, "replays", pid, ts)
     os.makedirs(d, exist_ok=True)
     if v.get("file"):
         shutil.copy(v["file"], os.path.join(d, "trace.ndjson"))
     base = os.path.basename(v.get("file") or "")
     m = re.match(r"(.+)_(\d+)\.ndjson", base)
     info = {"property": pid, "formula": v["formula"], "event": v["event"], "corpus": m.group(1) if m else corpus,
-            "seed": int(m.group(2)) if m else None, "tier": tier}
+            "seed": int(m.group(2)) if m else None, "tier": tier, "vseed": vseed}
+    cp = next((c for c in P.PROPS[pid]["corpora"] if c["name"] == info["corpus"]), None)
+    if cp is not None:
+        info["n"] = cp["n"][tier]
     json.dump(info, open(os.path.join(d, "info.json"), "w"), indent=1)
     return d
+
+
+def regen_one(binpath, sh, prop, info, tier, fresh=False):
+    """Regenerate the single trace a violation / replay refers to."""
+    cp = next((c for c in prop["corpora"] if c["name"] == info["corpus"]), None)
+    if cp is not None and "mbt" in cp:
+        sd = gen_schedules(sh, cp, info.get("vseed", 0), info.get("n", cp["n"][tier]))
+        steps, env = f"s{info.get('vseed', 0)}", {"VERIF_MBT_DIR": sd}
+    else:
+        steps, env = P.steps_for(info["corpus"], tier), None
+    if fresh:
+        shutil.rmtree(os.path.join(CACHE, "corpus", sh, f"{info['corpus']}_{info['seed']}_1_{steps}"), ignore_errors=True)
+    return gen_corpus(binpath, sh, info["corpus"], info["seed"], 1, steps, extra_env=env)
 
 
 def check(pid, tier, seed, replay=None):
@@ -297,15 +380,30 @@ def check(pid, tier, seed, replay=None):
     files = []
     if replay:
         info = json.load(open(os.path.join(replay, "info.json")))
-        d = gen_corpus(binpath, sh, info["corpus"], info["seed"], 1, P.steps_for(info["corpus"], tier))
+        d = regen_one(binpath, sh, prop, info, tier)
         files = sorted(glob.glob(d + "/*.ndjson"))
     else:
+        # corpora with few, long traces are generated in the background while the others are produced
+        import concurrent.futures
+        pool = concurrent.futures.ThreadPoolExecutor(max_workers=2)
+        slow = {}
+        for cp in prop["corpora"]:
+            if cp.get("slow") and cp["n"][tier] > 0:
+                seed0 = cp.get("seed0", 1) + (seed * 100000 if cp.get("seeded", True) else 0)
+                slow[cp["name"]] = pool.submit(gen_corpus, binpath, sh, cp["name"], seed0, cp["n"][tier],
+                                               cp.get("steps", {}).get(tier, P.steps_for(cp["name"], tier)))
         for cp in prop["corpora"]:
             n = cp["n"][tier]
             if n <= 0:
                 continue
             seed0 = cp.get("seed0", 1) + (seed * 100000 if cp.get("seeded", True) else 0)
-            d = gen_corpus(binpath, sh, cp["name"], seed0, n, cp.get("steps", {}).get(tier, P.steps_for(cp["name"], tier)))
+            if cp["name"] in slow:
+                d = slow[cp["name"]].result()
+            elif "mbt" in cp:
+                sd = gen_schedules(sh, cp, seed, n)
+                d = gen_corpus(binpath, sh, cp["name"], 0, n, f"s{seed}", extra_env={"VERIF_MBT_DIR": sd})
+            else:
+                d = gen_corpus(binpath, sh, cp["name"], seed0, n, cp.get("steps", {}).get(tier, P.steps_for(cp["name"], tier)))
             files += sorted(glob.glob(d + "/*.ndjson"))
             herr = glob.glob(d + "/*.harness_error")
             if herr:
@@ -323,7 +421,7 @@ def check(pid, tier, seed, replay=None):
     real_viol = 0
     for v in viols:
         # reproduce: regenerate that one trace and validate again
-        rp = save_replay(pid, v, "", tier)
+        rp = save_replay(pid, v, "", tier, seed)
         info = json.load(open(os.path.join(rp, "info.json")))
         matched = None
         for k in known:
@@ -334,8 +432,7 @@ def check(pid, tier, seed, replay=None):
             shutil.rmtree(rp, ignore_errors=True)
             continue
         if info["seed"] is not None and not prop.get("nondeterministic"):
-            shutil.rmtree(os.path.join(CACHE, "corpus", sh, f"{info['corpus']}_{info['seed']}_1_{P.steps_for(info['corpus'], tier)}"), ignore_errors=True)
-            d = gen_corpus(binpath, sh, info["corpus"], info["seed"], 1, P.steps_for(info["corpus"], tier))
+            d = regen_one(binpath, sh, prop, info, tier, fresh=True)
             _, v2, e2 = validate_traces(sorted(glob.glob(d + "/*.ndjson")), prop["invariants"], prop["properties"])
             if not v2:
                 print(f"ERROR: violation of {v['formula']} not reproduced on re-run; not reported as a violation")
